@@ -10,7 +10,7 @@ from spec import unicode_spec as SPEC
 
 PROP = 'C13'
 LEVEL = 'other'
-UNITS = ['w_convert.cpp', 'csv_readers.cpp', 'csv_writers.cpp']
+UNITS = ['w_convert.cpp', 'csv_readers.cpp', 'csv_writers.cpp', 'w_archives.cpp']
 EXPLANATION = ('R13.1: the BOM constant of every UTF traits class is U+FEFF encoded in that encoding (computed from the Unicode tables). '
                'R13.2: DetectEncoding tests BOMs in an order in which no BOM is shadowed by a shorter BOM that is its prefix, and each branch '
                'reports the like-named encoding and that BOM\'s length as data offset; StartsWithBom<X> walks X::bom. R13.3: every '
@@ -659,6 +659,10 @@ def run(prog, rep):
 
     # ---------------------------------------------------------------- R13.6 .. R13.8
     encoded_reader.check(prog, rep, ids={'R13.6': 'R13.6', 'R13.7': 'R13.7', 'R13.8': 'R13.8', 'R13.12': 'R13.12'})
+    rep.rule('R13.13', 'JSON saved to an encoded stream: every rapidjson Writer / PrettyWriter over the AutoUTF output stream is instantiated with the '
+                       'run-time target encoding (AutoUTF), compact and formatted output alike - otherwise UTF-8 bytes are emitted as UTF-16/32 units', floor=4)
+    from rules import json_render
+    json_render.check(prog, rep, 'R13.13', want=('writers',))
 
     # ---------------------------------------------------------------- R13.9
     check_stream_reposition(prog, rep)
